@@ -5,7 +5,8 @@ from .refcalc import RefCalc, INDET, E
 from .world import Index
 
 INTERCEPT_ARG0 = ('IFERROR', 'IFNA')
-SWALLOW = ('ISERROR', 'COUNT')
+SWALLOW = ('ISERROR', 'COUNT', 'ISNA', 'ISNUMBER', 'ISTEXT', 'ISBLANK',
+           'ISLOGICAL')
 
 
 AGGR = ('SUM', 'MAX', 'MIN')
